@@ -3,6 +3,7 @@ package dicescript
 import (
 	"errors"
 	"strconv"
+	"strings"
 )
 
 type ParserData struct {
@@ -330,6 +331,7 @@ func fixCodeByOffset(code []ByteCode, offset int) {
 func (p *ParserData) AddStoreComputed(name string, text string) {
 	code, length, offset := p.CodePop()
 	fixCodeByOffset(code, offset)
+	text = trimExprText(text)
 	val := NewComputedValRaw(&ComputedData{
 		Expr:      text,
 		code:      code,
@@ -340,9 +342,16 @@ func (p *ParserData) AddStoreComputed(name string, text string) {
 	p.WriteCode(typeStoreName, name)
 }
 
+// trimExprText drops the blanks that the last token of a captured expression swallowed:
+// they are not part of the expression ("&a = x " and "&a = x" define the same value).
+func trimExprText(text string) string {
+	return strings.TrimRight(text, " \t\r\n")
+}
+
 func (p *ParserData) AddStoreComputedOnStack(text string) {
 	code, length, offset := p.CodePop()
 	fixCodeByOffset(code, offset)
+	text = trimExprText(text)
 	val := NewComputedValRaw(&ComputedData{
 		Expr:      text,
 		code:      code,
